@@ -409,9 +409,11 @@ SHADOW_DEFS = {
     'Hdr': '<struct name="Hdr"><member name="a" type="u32"/><member name="b" type="u32"/></struct>',
     'Arr': '<struct name="Arr"><member name="x" type="u8"><dimension size="KS"/></member></struct>',
     'KS': '<constant name="KS" value="5"/>',
+    'THdr': '<typedef name="THdr" type="Hdr"/>',
 }
-SHADOW_MAIN = '<x xmlns:xi="http://www.xyz.com/1984/XInclude"><xi:include href="inc.xml"/>%s</x>'
-SHADOW_SETS = (('Msg', 'Hdr', 'Arr'), ('Arr', 'KS', 'Msg'), ('Msg', 'Hdr', 'Arr', 'KS'))
+SHADOW_MAIN = '<x xmlns:xi="http://www.xyz.com/1984/XInclude"><xi:include href="%s"/>%s</x>'
+SHADOW_SETS = (('Msg', 'Hdr', 'Arr'), ('Arr', 'KS', 'Msg'), ('Msg', 'Hdr', 'Arr', 'KS'), ('THdr', 'Hdr', 'Msg'))
+SHADOW_INC_NAMES = ('inc.xml', 'Hdr.xml')        # the second: an included file named like a definition of the including file
 
 
 def judge_shadow(job):
@@ -419,24 +421,24 @@ def judge_shadow(job):
     T.setup_repo()
     out = {'viol': [], 'runs': 0}
     try:
-        for names in SHADOW_SETS:
+        for names, incname in itertools.product(SHADOW_SETS, SHADOW_INC_NAMES):
             sizes = {}
             for order in itertools.permutations(names):
                 d = T.fresh_dir('c15s')
                 try:
-                    with open(os.path.join(d, 'inc.xml'), 'w') as f:
+                    with open(os.path.join(d, incname), 'w') as f:
                         f.write(SHADOW_INC)
                     with open(os.path.join(d, 'main.xml'), 'w') as f:
-                        f.write(SHADOW_MAIN % ''.join(SHADOW_DEFS[n] for n in order))
-                    res = T.run_prophyc(['--isar', '--python_out', d, os.path.join(d, 'inc.xml'), os.path.join(d, 'main.xml')])
+                        f.write(SHADOW_MAIN % (incname, ''.join(SHADOW_DEFS[n] for n in order)))
+                    res = T.run_prophyc(['--isar', '--python_out', d, os.path.join(d, incname), os.path.join(d, 'main.xml')])
                     out['runs'] += 1
-                    art = {'shadow': True, 'order': list(order), 'detail': ''}
+                    art = {'shadow': True, 'order': list(order), 'include': incname, 'detail': ''}
                     if not res.ok:
                         out['viol'].append(('include-shadow|prophyc-fails|%s' % res.exc_type, dict(art, detail=str(res.exc)[:300])))
                         continue
                     text = open(os.path.join(d, 'main.py')).read()
-                    pos = dict((n, text.find(('class %s(' % n) if n != 'KS' else '\nKS = ')) for n in order)
-                    for user, dep in (('Msg', 'Hdr'), ('Arr', 'KS')):
+                    pos = dict((n, text.find({'KS': '\nKS = ', 'THdr': '\nTHdr = '}.get(n, 'class %s(' % n))) for n in order)
+                    for user, dep in (('Msg', 'Hdr'), ('Arr', 'KS'), ('THdr', 'Hdr')):
                         if user in pos and dep in pos and not 0 <= pos[dep] < pos[user]:
                             out['viol'].append(('include-shadow|dependency-after-dependent|%s->%s' % (user, dep),
                                                 dict(art, detail='%s stands before the local %s it uses:\n%s' % (user, dep, text[-900:]))))
